@@ -21,7 +21,7 @@ func init() {
 			"R12-loops — mainLoop and mainLoopWithContext perform the same sequence of effects apart from the context poll; R12-options — NewThread passes the parent's Options unchanged, newLState selects the stack implementation only from MinimizeStackMemory and sizes registry and stack from the Options fields. " +
 			"R13-poolrelease shared — the segmented stack never uses a segment after handing it back to the pool (Pop/SetSp return frames of segments it still owns). R12-deadpush — when a coroutine dies, threadRun's recover arms empty its registry (SetTop(0)) before pushing the error value that is handed to the resumer: the registry may be full (the limit that killed it), and a second overflow inside the deferred function would skip the hand-over. R02-copies shared — the stand-alone frame/registry helpers (used when a coroutine starts) and their inlined copies (used by calls) have the same statements, so growth and nil-filling behave alike on every path. NOT decided: that behaviour below the limits is identical across configurations (segment arithmetic of SetSp/Pop/At, copy of the live prefix on resize) — run-time quantities.",
 		Trusted: []string{"Go bounds checks make an element store at index i fail exactly when i >= len(slice)"},
-		Rules:   []func(*Ctx){ruleSetSpAdjustsBeforeFreeing, ruleHandlerFramesFromTheFailedCall, ruleInsertTopWithinCheckedCapacity, ruleRaiseGuardUnconditional, ruleSegmentsIndexedByOwnCursor, ruleXMoveAbsolute, ruleYieldRoomCoversPushes, ruleRaisedValueFits, ruleSegmentsCeil, ruleIsFull, ruleFull, ruleGrow, ruleLoops, ruleOptions, rulePoolRelease, ruleDeadThreadPush, ruleInlineCopies, ruleSegIdxWidth, ruleThreadCtx, ruleProtectedPreparation, ruleNestedCallDepth, ruleBulkWritesChecked, ruleYieldHandOver, ruleYieldRoomForOwnConvention, ruleResumeRoomChecked},
+		Rules:   []func(*Ctx){ruleCanHoldAgreesWithResize, ruleSetSpAdjustsBeforeFreeing, ruleHandlerFramesFromTheFailedCall, ruleInsertTopWithinCheckedCapacity, ruleRaiseGuardUnconditional, ruleSegmentsIndexedByOwnCursor, ruleXMoveAbsolute, ruleYieldRoomCoversPushes, ruleRaisedValueFits, ruleSegmentsCeil, ruleIsFull, ruleFull, ruleGrow, ruleLoops, ruleOptions, rulePoolRelease, ruleDeadThreadPush, ruleInlineCopies, ruleSegIdxWidth, ruleThreadCtx, ruleProtectedPreparation, ruleNestedCallDepth, ruleBulkWritesChecked, ruleYieldHandOver, ruleYieldRoomForOwnConvention, ruleResumeRoomChecked},
 	})
 }
 
